@@ -7,6 +7,8 @@
 //	log <msg> <msg> ...   messages logged concurrently to one marbl.Stream
 //	m <msg> ... run       the same, one message per op (the shrinker drops messages)
 //	m <msg> ... runmod    the same through marbl.Modifier (ids = Context.ID() of real contexts)
+//	m <msg> ... runws     the same, the stream's writer being the real marbl.Handler with one real
+//	                      websocket subscriber (ws.go); the subscriber must receive the written frames
 //	  msg = kind/id/api/pseudo,.../host/cl/te/hdrs/reads
 //	    kind   q (request) | s (response)
 //	    id     hex, >= 8 bytes (the frames carry id[:8])
@@ -53,7 +55,8 @@ func (P) Rule() string {
 	return "case = either one logging run (`m` op per message, then `run`): 1..8 messages (requests/responses, request+response pairs sharing an id, random pseudo-header " +
 		"fields, header maps with repeated/empty/binary/long values, bodies 0..MiB delivered by a scripted body in random chunkings with " +
 		"EOF-with-data / separate EOF / early stop / mid-body error / reads after EOF, consumer buffers of random slack) logged concurrently " +
-		"to one real marbl.Stream and parsed back with marbl.Reader and an independent parser; or a batch of `read` ops: streams of valid " +
+		"to one real marbl.Stream (writer: a recorder that also retains the slices it is handed; via marbl.Modifier in 1/5, into the real marbl.Handler " +
+		"with a real websocket subscriber in 2/5 of the cases) and parsed back with marbl.Reader and an independent parser; or a batch of `read` ops: streams of valid " +
 		"frames that are truncated, bit-flipped, re-typed, given boundary/huge length fields, spliced with random bytes, or purely random; " +
 		"distinct by hash of the op list; non-trivial when a log case has >= 2 messages and >= 2 data frames, or a read batch reaches " +
 		">= 2 different terminating outcomes or parses >= 1 frame before an error"
@@ -490,19 +493,6 @@ type got struct {
 	data []byte
 }
 
-// recWriter is the stream's io.Writer: every Write is kept as its own chunk.
-type recWriter struct {
-	mu     sync.Mutex
-	chunks [][]byte
-}
-
-func (w *recWriter) Write(b []byte) (int, error) {
-	w.mu.Lock()
-	w.chunks = append(w.chunks, append([]byte(nil), b...))
-	w.mu.Unlock()
-	return len(b), nil
-}
-
 type pair struct{ k, v string }
 
 func sortedPairs(p []pair) []pair {
@@ -527,7 +517,9 @@ func joinOr(sep string, l []string) string {
 
 // doLog logs the messages concurrently, directly through Stream.LogRequest/LogResponse with the
 // op's ids, or (viaMod) through marbl.Modifier with the ids of real martian contexts.
-func doLog(toks []string, viaMod bool) core.Result {
+func doLog(toks []string, mode string) core.Result {
+	viaMod := mode == "runmod"
+	tapOK := func() {}
 	var ms []*msg
 	for _, t := range toks {
 		m, ok := parseMsg(t)
@@ -540,6 +532,24 @@ func doLog(toks []string, viaMod bool) core.Result {
 		return core.Result{Impl: "bad-op"}
 	}
 	rec := &recWriter{}
+	var tap *wsTap
+	if mode == "runws" {
+		nf := 0
+		for _, m := range ms {
+			nf += len(m.reads) + len(m.hdr) + 16
+			for _, kv := range m.hdr {
+				nf += len(kv.vs)
+			}
+		}
+		if nf > maxTapFrames {
+			core.Count("ws:skipped-too-many-frames")
+		} else if tap = acquireTap(); tap != nil {
+			broken := true // until the end probe came through
+			defer func() { releaseTap(broken) }()
+			tapOK = func() { broken = false }
+			rec.next = tap.h
+		}
+	}
 	var s *marbl.Stream
 	var mod *marbl.Modifier
 	if viaMod {
@@ -710,8 +720,15 @@ func doLog(toks []string, viaMod bool) core.Result {
 	for _, r := range removes {
 		r()
 	}
+	var wsMsgs [][]byte
+	wsDone := false
+	if tap != nil { // everything written is queued for the subscriber: an end probe follows it
+		if wsMsgs, wsDone = tap.collect(15 * time.Second); wsDone {
+			tapOK()
+		}
+	}
 	rec.mu.Lock()
-	chunks := rec.chunks
+	chunks, kept := rec.chunks, rec.kept
 	rec.mu.Unlock()
 	var streamBytes []byte
 	for _, c := range chunks {
@@ -806,6 +823,18 @@ func doLog(toks []string, viaMod bool) core.Result {
 	}
 	if stray >= 0 {
 		fail1("stray-frame", "frame %d (%s) belongs to no logged message", stray, fs[stray].show())
+	}
+	// the writer may retain what it is handed (marbl.Handler does): frames are never touched again
+	if sig, msg := checkRetained(chunks, kept); sig != "" {
+		fail1(sig, "%s", msg)
+	}
+	if tap != nil {
+		core.Count("log:via-handler-websocket")
+		if !wsDone {
+			fail1("subscriber-hang", "websocket subscriber of marbl.Handler: the end marker written after %d frames did not arrive within 15s (%d messages received)", len(chunks), len(wsMsgs))
+		} else if sig, msg := checkSubscriber(chunks, wsMsgs); sig != "" {
+			fail1(sig, "%s", msg)
+		}
 	}
 	for i, m := range ms {
 		var hs, ds, rets []string
@@ -926,17 +955,17 @@ func (e *ex) Do(op string) core.Result {
 	case len(t) == 2 && t[0] == "read":
 		return doRead(t[1])
 	case len(t) >= 2 && t[0] == "log":
-		return doLog(t[1:], false)
+		return doLog(t[1:], "run")
 	case len(t) == 2 && t[0] == "m": // one message of the next `run`
 		e.queue = append(e.queue, t[1])
 		return core.Result{Impl: "queued"}
-	case len(t) == 1 && (t[0] == "run" || t[0] == "runmod"): // runmod: through marbl.Modifier
+	case len(t) == 1 && (t[0] == "run" || t[0] == "runmod" || t[0] == "runws"): // runmod: through marbl.Modifier; runws: into marbl.Handler
 		q := e.queue
 		e.queue = nil
 		if len(q) == 0 {
 			return core.Result{Impl: "bad-op"}
 		}
-		return doLog(q, t[0] == "runmod")
+		return doLog(q, t[0])
 	}
 	return core.Result{Impl: "bad-op"}
 }
